@@ -19,6 +19,8 @@ pub fn def() -> PropDef {
         needed_probes: &["c14_query_after_unawaited_death", "c14_query_while_alive", "c14_registry_after_unawaited_death", "c14_query_after_awaited_death"],
         quick_runs: 30_000,
         thorough_runs: 2_000_000,
+        block: 1,
+        flavours: &["tokio"],
     }
 }
 
